@@ -36,6 +36,9 @@ func frombytes(b []byte) string { return string(b) }
 func roundtrip(s string) string { b := []byte(s); return string(b) }
 func fromrune(r rune) string { return string(r) }
 func frombyte(b byte) string { return string(b) }
+func blit(n int) string { b := []byte("----"); b[n] = '*'; return string(b) }
+func blitloop() string { r := ""; for i := 0; i < 3; i++ { b := []byte("abc"); r += string(b); b[i] = 'X' }; return r }
+func blit2() string { a := []byte("hé"); c := []byte("hé"); a[0] = 'j'; return string(a) + string(c) + string([]byte("hé")) }
 func fromelem(s string, i int) string { return string(s[i]) + "|" + string(rune(s[i])) }
 func eachbyte(s string) string { r := ""; for i := 0; i < len(s); i++ { r += string(s[i]) }; return r }
 func fromint8(x int8) string { return string(rune(x)) }
@@ -254,6 +257,22 @@ func (w *c13Worker) check(c c13Case) string {
 		if e != "" || v.String() != string(r) {
 			return fail(fmt.Sprintf("string(rune(%d))", c.I), string(r), e+v.String())
 		}
+	case "byteslit":
+		for k := 0; k < 3; k++ {
+			n := (c.I + k) % 4
+			want := []byte("----")
+			want[n] = '*'
+			v, e := w.call("blit", I(n))
+			if e != "" || v.String() != string(want) {
+				return fail(fmt.Sprintf("[]byte(\"----\") with element %d set, call %d", n, k+1), string(want), e+v.String())
+			}
+		}
+		if v, e := w.call("blitloop"); e != "" || v.String() != "abcabcabc" {
+			return fail("[]byte(\"abc\") converted afresh in every iteration", "abcabcabc", e+v.String())
+		}
+		if v, e := w.call("blit2"); e != "" || v.String() != "jéhéhé" {
+			return fail("two conversions of one literal do not share an array", "jéhéhé", e+v.String())
+		}
 	case "byteconv":
 		// string(b) of a byte is the UTF-8 encoding of the code point b, not the byte itself
 		b := byte(c.I)
@@ -363,7 +382,9 @@ func c13RandLiteral(rng *core.Rng) string {
 		var sb strings.Builder
 		sb.WriteByte('`')
 		for n := rng.Intn(10); n > 0; n-- {
-			switch rng.Intn(6) {
+			switch rng.Intn(7) {
+			case 6:
+				sb.WriteString(core.Pick(rng, []string{"\r\n", "\r", "a\rb"})) // carriage returns are dropped from raw literals
 			case 0:
 				sb.WriteString("\\n")
 			case 1:
@@ -456,6 +477,7 @@ func c13Gen(seed int64, idx int) []c13Case {
 	}
 	cs = append(cs, c13Case{Op: "rune", I: core.Pick(rng, []int{0, 65, 0xe9, 0x20ac, 0x1d11e, 0xd800, 0x10ffff, 0x110000, -1, 127, 128, 0xfffd})})
 	cs = append(cs, c13Case{Op: "rune", I: rng.Intn(0x11000)})
+	cs = append(cs, c13Case{Op: "byteslit", I: rng.Intn(4)})
 	cs = append(cs, c13Case{Op: "byteconv", I: rng.Intn(256), S: []byte(s)}, c13Case{Op: "byteconv", I: 128 + rng.Intn(128), S: []byte(s)})
 	for k := 0; k < 3; k++ {
 		cs = append(cs, c13Case{Op: "literal", Lit: c13RandLiteral(rng)}, c13Case{Op: "charlit", Lit: c13RandCharLit(rng)})
@@ -470,7 +492,7 @@ func c13Gen(seed int64, idx int) []c13Case {
 }
 
 func runC13(r *core.Run) {
-	r.SetRule("strings over ASCII, 2/3/4-byte runes, combining marks and invalid UTF-8 (lone continuation bytes, truncated sequences, surrogates, NUL) reach script functions as host-supplied arguments: len, s[i] (value, type uint8 and byte arithmetic) for every index incl. one past each end, s[i:j] for every pair incl. out-of-range ones (must be errors), the three range forms (byte offsets, runes, U+FFFD), []byte(s), string([]byte), string(rune) incl. invalid code points, string(b) for byte / s[i] / int8 / uint32 operands (the code point's encoding, not the byte), a+b and += with the operands checked afterwards, the six comparisons; plus generated interpreted, raw and character literal spellings (all escape forms) evaluated by Eval. non-trivial = the operation returned a value (not an expected error); distinct by (operation, operands)")
+	r.SetRule("strings over ASCII, 2/3/4-byte runes, combining marks and invalid UTF-8 (lone continuation bytes, truncated sequences, surrogates, NUL) reach script functions as host-supplied arguments: len, s[i] (value, type uint8 and byte arithmetic) for every index incl. one past each end, s[i:j] for every pair incl. out-of-range ones (must be errors), the three range forms (byte offsets, runes, U+FFFD), []byte(s), string([]byte), []byte(literal) evaluated repeatedly with writes in between, string(rune) incl. invalid code points, string(b) for byte / s[i] / int8 / uint32 operands (the code point's encoding, not the byte), a+b and += with the operands checked afterwards, the six comparisons; plus generated interpreted, raw and character literal spellings (all escape forms) evaluated by Eval. non-trivial = the operation returned a value (not an expected error); distinct by (operation, operands)")
 	r.Assume("native Go string operations and strconv.Unquote/UnquoteChar are the specification")
 	n := r.N(10000, 200000)
 	core.Parallel((n+49)/50, func(chunk int) {
